@@ -59,6 +59,10 @@ type Task struct {
 
 	fn func()
 
+	// condition variables (cond.go): set while the task waits for a Signal/Broadcast
+	condWait   *sync.Cond
+	condTicket uint64
+
 	// callback timers (timers.go)
 	timer     bool
 	handle    *time.Timer
@@ -116,6 +120,7 @@ type Stats struct {
 	SwitchInBuild  int // switch away from a task parked inside a StallSites site
 	OverlapBuild   int // a task entered a StallSites site while another task was parked inside one
 	OnceWaits      int
+	CondWaits      int
 	TimersArmed    int
 	TimersFired    int
 	TimerJumps     int // the clock was moved to the next timer deadline because nothing else could run
@@ -171,6 +176,7 @@ type Sim struct {
 	// readers behind a queued writer; spinning on TryLock alone would never model that.
 	rwWaiting [64]rwWait
 	nRW       int
+	condSeq   uint64
 
 	checkGoid bool
 	wg        sync.WaitGroup
@@ -561,7 +567,7 @@ func (s *Sim) finish(t *Task) {
 func (s *Sim) candidates(buf []*Task) []*Task {
 	buf = buf[:0]
 	for _, o := range s.tasks {
-		if o.state != stRunnable || o.stalled {
+		if o.state != stRunnable || o.stalled || o.condWait != nil {
 			continue
 		}
 		if o.blocked && o.blockedEpoch == s.unlockEpoch {
